@@ -484,6 +484,11 @@ func runC08(c *Ctx) {
 	extensionKeySplit(c, "R4")
 	smudgeDecidesFirst(c, "R6")
 	copyHelperReadsToEnd(c, "R1")
+	// non-pointer input is passed through by the long-running filter as well: its answers follow the protocol
+	// grammar C14 decides (status before content, one status per request), shared here
+	c.RulePrefix = "C14/"
+	runC14(c)
+	c.RulePrefix = ""
 	c08SmudgePassesAllNonPointers(c)
 	c08BlankLines(c)
 
